@@ -176,6 +176,8 @@ int main(int argc, char** argv) {
   table.push_back({"UnionFind", run_sets, 2});
   table.push_back({"DynamicBitSet.concurrent", run_bits, 3});
   table.push_back({"InsertBag.fill", run_bag, 0});
+  table.push_back({"atomicMinMax", run_atomics, 0});
+  table.push_back({"atomicAddSubtract", run_atomics, 1});
 
   std::string only = H.param("only");
   if (!only.empty()) {
